@@ -23,13 +23,14 @@ Apply(e) ==
       [] e.ev = "call"    -> PCall(e.id, e.mode, SeqToSet(e.blk))
       [] e.ev = "ret"     -> PRet(e.id, e.res, e.nr, e.nw)
       [] e.ev = "relcall" -> PRelCall(e.id)
-      [] e.ev = "relret"  -> UNCHANGED pvars
+      [] e.ev = "relret"  -> PRelRet(e.id)
+      [] e.ev = "panic"   -> PPanic
       [] e.ev = "cancel"  -> PCancel(e.id)
       [] e.ev = "quiet"   -> PQuiet(SeqToSet(e.blk))
       [] e.ev = "probe"   -> PProbe(e.ok)
       [] e.ev \in {"leak", "note", "end"} -> UNCHANGED pvars
       [] OTHER            -> /\ bad' = bad \cup {"Unexplained"}
-                             /\ UNCHANGED <<st, md, ahead, canc, rels>>
+                             /\ UNCHANGED <<st, md, ahead, canc, rels, relin>>
 
 TStep ==
     /\ l <= Len(Trace)
